@@ -1,8 +1,94 @@
-/- driver component stub: replaced by the real component when its model exists -/
+/- driver component `tokens`: encode / decode / encodeBatch of Model/Tokens.lean and the
+   C06 predicates of Spec/Tokens.lean evaluated on implementation data -/
 import TakVerif.Driver.Ser
+import TakVerif.Model.Tokens
+import TakVerif.Spec.Tokens
 
 namespace Tak.Driver.Tokens
+open Tak.Ser Tak.Tokens
 
-def handle : List String → Option String := fun _ => none
+/-- token list: `t,t,…`, the empty list is `-` -/
+def parseToks (s : String) : Option (List Nat) :=
+  if s = "-" then some [] else (s.splitOn ",").mapM String.toNat?
+
+def showToks (ts : List Nat) : String :=
+  if ts.isEmpty then "-" else ",".intercalate (ts.map toString)
+
+/-- list of rows: `row;row;…`, no rows at all is `.` -/
+def parseRows (s : String) : Option (List (List Nat)) :=
+  if s = "." then some [] else (s.splitOn ";").mapM parseToks
+
+def showRows (rows : List (List Nat)) : String :=
+  if rows.isEmpty then "." else ";".intercalate (rows.map showToks)
+
+def boolsOfNats (r : List Nat) : List Bool := r.map (· != 0)
+def natsOfBools (r : List Bool) : List Nat := r.map (fun b => if b then 1 else 0)
+
+def parseFlag : String → Option Bool
+  | "0" => some false
+  | "1" => some true
+  | _ => none
+
+/-- ops:
+  `encode <0|1> <pos7>`              → `t,t,…` | `crash IndexError`           (encodeE)
+  `decode <tokens>`                  → `ok <pos>` | `err`                      (decode)
+  `batch <rows>`                     → `<out rows> | <mask rows>`              (encodeBatch)
+  `swap <pos7>`                      → `<pos>`                                 (swapColours)
+  `encwf <pos7>`                     → `true` | `false`
+  `layout <0|1> <pos7>`              → `t,t,…`                                 (Spec layout)
+  `roundtrip <pos7> <pos7>`          → `ok` | `board` | `size` | `tomove` | `reserves`
+  `sametriple <pos7> <pos7>`         → `true` | `false`   (same size, board, side to move, reserves)
+  `twin <0|1> <tokens> <tokens>`     → `true` | `false`
+  `bytes <tokens>`                   → `true` | `false`
+  `batchok <rows> <out> <mask>`      → `ok` | `mask` | `row`
+-/
+def handle : List String → Option String
+  | "encode" :: s :: rest => do
+    let s ← parseFlag s
+    let p ← parsePos rest
+    pure (match encodeE p s with
+      | .ok ts => showToks ts
+      | .error e => showErr e)
+  | ["decode", ts] => do
+    let ts ← parseToks ts
+    pure (match decode ts with
+      | .ok q => s!"ok {showPos q}"
+      | .error _ => "err")
+  | ["batch", rows] => do
+    let rows ← parseRows rows
+    let (out, mask) := encodeBatch rows
+    pure s!"{showRows out} | {showRows (mask.map natsOfBools)}"
+  | "swap" :: rest => do
+    let p ← parsePos rest
+    pure (showPos (swapColours p))
+  | "encwf" :: rest => do
+    let p ← parsePos rest
+    pure (toString (decide (EncWF p)))
+  | "layout" :: s :: rest => do
+    let s ← parseFlag s
+    let p ← parsePos rest
+    pure (showToks (layout p s))
+  | "roundtrip" :: rest => do
+    let p ← parsePos (rest.take 7)
+    let q ← parsePos (rest.drop 7)
+    pure (roundTripVerdict p q)
+  | "sametriple" :: rest => do
+    let p ← parsePos (rest.take 7)
+    let q ← parsePos (rest.drop 7)
+    pure (toString (roundTripVerdict p q == "ok"))
+  | ["twin", s, a, b] => do
+    let s ← parseFlag s
+    let a ← parseToks a
+    let b ← parseToks b
+    pure (toString (twinOK s a b))
+  | ["bytes", ts] => do
+    let ts ← parseToks ts
+    pure (toString (ts.all (· ≤ 255)))
+  | ["batchok", rows, out, mask] => do
+    let rows ← parseRows rows
+    let out ← parseRows out
+    let mask ← parseRows mask
+    pure (batchVerdict rows out (mask.map boolsOfNats))
+  | _ => none
 
 end Tak.Driver.Tokens
